@@ -325,7 +325,12 @@ func (e *Exec) binop(st *State, fr *Frame, x *ssa.BinOp, site string) []*State {
 		ok, outs := e.guard(st, Eq(tb, BVConst(0, w)), "integer divide by zero", site)
 		if ok != nil {
 			op := map[bool]map[token.Token]string{true: {token.QUO: "bvsdiv", token.REM: "bvsrem"}, false: {token.QUO: "bvudiv", token.REM: "bvurem"}}[signed][x.Op]
-			ok.Top().Env[x] = BVBin(op, ta, tb)
+			if e.cfg["div"] == "uf" && !tb.IsConst() {
+				// division abstracted as an uninterpreted function (sound for unsat; sat must replay)
+				ok.Top().Env[x] = UF(fmt.Sprintf("%s_%d", op, w), ta.Sort, ta, tb)
+			} else {
+				ok.Top().Env[x] = BVBin(op, ta, tb)
+			}
 			outs = append(outs, ok)
 		}
 		return outs
